@@ -96,6 +96,7 @@ class StrArg(Arg):
             cset = self.per_pos.get(i, self.charset)
             if isinstance(cset, str) and len(set(cset)) <= 96:
                 it.domains[c] = sorted(set(ord(x) for x in cset))
+                it.domain_ids[c.get_id()] = it.domains[c]
         if self.minlen == self.maxlen:
             return SStr([(True, c) for c in cs]), assume
         n = z3.Int(f"{self.name}_len")
@@ -318,7 +319,7 @@ class TupleArg(Arg):
 class Contract:
     def __init__(self, target, args, requires=(), ensures=(), raises=(), props=(), kind="top",
                  modifies=(), call=None, notes="", native_only=False, setup=None, max_paths=None,
-                 samples=200, kf=None, result_filter=None, split=(), shards=1, returns_expr=None, gen=None, requires_symbolic=(), tier="quick"):
+                 samples=200, kf=None, result_filter=None, split=(), shards=1, returns_expr=None, gen=None, requires_symbolic=(), tier="quick", symbolic_only=False, cases=None):
         """target: 'module:Qual.name'
         args: [Arg]  (positional parameters of the function, in order; self first for methods)
         requires: [expr]                      extra preconditions over the parameter names
@@ -334,6 +335,8 @@ class Contract:
         self.native_only = native_only; self.setup = setup; self.max_paths = max_paths
         self.nsamples = samples; self.kf = list(kf or [])
         self.split = list(split); self.shards = shards; self.returns_expr = returns_expr; self.gen = gen
+        self.cases = cases          # callable(tier) -> list of argument lists: exhaustive enumeration of a stated small scope (engine R)
+        self.symbolic_only = symbolic_only   # abstract harness: no native form, no native sampling
         self.tier = tier          # 'thorough': generated and discharged only in the thorough tier
         self.requires_symbolic = list(requires_symbolic)   # narrows the *proved* domain only (stated in notes); native evaluation ignores it
 
@@ -472,11 +475,17 @@ class Verifier:
         # ---- native cross-check on samples (bounded engine R; also the CPython cross-check of the models)
         native_bad = self.native_samples(contract, fn, rng) if shard[0] == 0 else []
         if contract.native_only:
+            if native_bad:
+                args, d = native_bad[0]
+                full = f"{self.prop}/{fname}#{index}/bounded:native-contract-evaluation"
+                rep.violation(full, {"contract": fname, "clause": "native contract evaluation (bounded stand-in)", "args": repr(args), "native": d,
+                                     "python": replay_snippet(self.cmod, index, args)})
             return
         self.install_callsite_contracts(contract, fn)
         # ---- symbolic
         it.current_target = fn
         self._used_callsite = False
+        self._confirmed = False
         argvalues = []
         assumptions = []
         for a in contract.args:
@@ -515,7 +524,19 @@ class Verifier:
                     if okind == "unsupported":
                         unsupported.append(f"{oname}: {claim}")
                         continue
+                    if getattr(self, "_confirmed", False):
+                        # a violation of this contract is already confirmed with a replayed input: the remaining
+                        # obligations are not attempted (they are reported as not discharged, never as proved)
+                        failed.append((full, oname, pc, claim, "not attempted after a confirmed violation of this contract", None, 0.0))
+                        continue
                     status, model, dt = it.prove(pc, claim)
+                    if not status.startswith("discharged") and model is not None:
+                        try:
+                            conc = [a.concretize(model, v) for a, v in zip(contract.args, argvalues)]
+                            if native_check(contract, fn, conc)[0] == "violated":
+                                self._confirmed = True
+                        except Exception:
+                            pass
                     if status.startswith("discharged"):
                         rep.ok(full, {"discharged": "z3", "discharged-tab": "z3+tabulation", "discharged-cvc5": "cvc5"}[status], dt, contract.kind, fname)
                     else:
@@ -541,7 +562,7 @@ class Verifier:
         # ---- failures (at most 3 reported per contract; the rest are recorded as failed obligations only)
         reported = 0
         for full, oname, pc, claim, status, model, dt in failed:
-            if reported >= 3:
+            if reported >= 3 or status.startswith("not attempted"):
                 rep.fail(full, "z3", f"{status} (not triaged: earlier failures of this contract already reported)", dt, contract.kind, fname)
                 continue
             self.handle_failure(contract, index, fn, argvalues, full, oname, status, model, dt, rng)
@@ -602,8 +623,8 @@ class Verifier:
                     for r in c.requires:
                         t = it.truth(it.eval_src(r, env))
                         cond = zand(cond, t)
-                except C.Unsupported:
-                    continue
+                except (C.Unsupported, C.Raised):
+                    continue          # precondition not evaluable on these arguments: contract not applicable
                 if cond is False:
                     continue
                 if cond is True or it.branch(cond):
@@ -685,6 +706,24 @@ class Verifier:
     def native_samples(self, contract, fn, rng, n=None, label="samples"):
         rep = self.report
         n = n or contract.nsamples
+        if contract.symbolic_only:
+            return []
+        if contract.cases is not None:
+            bad = []
+            evals = 0
+            allcases = contract.cases(getattr(self.report, "tier", "quick"))
+            for args in allcases:
+                v, d = native_check(contract, fn, args)
+                if v == "pre-false":
+                    continue
+                evals += 1
+                if v == "violated":
+                    bad.append((args, d))
+            rep.add_bounded(contract.target, "R(native contract evaluation, exhaustive over the stated scope)", contract.notes or "enumerated scope", evals, len(bad))
+            rep.crosscheck["samples"] += evals
+            self._native_bad = getattr(self, "_native_bad", {})
+            self._native_bad[contract.target] = bad
+            return bad
         per = [a.samples(rng, max(4, n // 8)) for a in contract.args]
         if any(len(p) == 0 for p in per):
             rep.add_bounded(contract.target, "R(native contract evaluation)", "no sampler for an argument", 0, 0)
@@ -694,7 +733,7 @@ class Verifier:
         kf_hits = 0
         for i in range(n):
             args = [rng.choice(p) for p in per]
-            if contract.gen is not None and i % 4 != 3:
+            if contract.gen is not None and (i % 4 != 3 or any(x is None for x in args)):
                 args = contract.gen(rng)
             v, d = native_check(contract, fn, args)
             if v == "pre-false":
